@@ -8,7 +8,8 @@ set -u
 repo="$(cd "$1" && pwd)"; id="$2"; shift 2
 bin="$(echo "$id" | tr 'A-Z' 'a-z')"
 tag="$(echo "$repo" | md5sum | cut -c1-8)"
-root="/tmp/fvalt-$id-$tag"
+ns="${FV_ALT_NS:-}"   # private namespace, so that two kinds of trial of one property can run at once
+root="/tmp/fvalt$ns-$id-$tag"
 mkdir -p "$root/verif"
 # the committed harness (so that edits in progress in /verif/harness do not leak into a trial);
 # FV_WORKTREE_HARNESS=1 uses the working tree instead
@@ -20,7 +21,7 @@ fi
 sed -i "s#path = \"/repo\"#path = \"$repo\"#" "$root/harness/Cargo.toml"
 ln -sfn /verif/findings "$root/verif/findings"
 cp /verif/known_findings.json "$root/verif/known_findings.json"
-export CARGO_NET_OFFLINE=true CARGO_TARGET_DIR="/tmp/fv-target-alt-$id"
+export CARGO_NET_OFFLINE=true CARGO_TARGET_DIR="/tmp/fv-target-alt$ns-$id"
 if ! ( cd "$root/harness" && cargo build --release --bin "$bin" ) > "$root/build.log" 2>&1; then
     echo "BUILD FAILED"; grep -E "^error" -A8 "$root/build.log" | head -40; echo "EXIT=3"; exit 3
 fi
